@@ -7,6 +7,7 @@ import (
 
 	"github.com/ethereum/go-ethereum/consensus/misc"
 	ethtypes "github.com/ethereum/go-ethereum/core/types"
+	ethparams "github.com/ethereum/go-ethereum/params"
 
 	sdk "github.com/cosmos/cosmos-sdk/types"
 
@@ -21,8 +22,10 @@ func (k Keeper) CalculateBaseFee(ctx sdk.Context) sdkmath.Int {
 	params := k.GetParams(ctx)
 
 	var gasLimit *big.Int
-	// NOTE: a MaxGas equal to -1 means that block gas is unlimited
-	if consParams := ctx.ConsensusParams(); consParams.Block != nil && consParams.Block.MaxGas > -1 {
+	// NOTE: a MaxGas equal to -1 (or 0, for baseapp) means that block gas is unlimited.
+	// A limit below the elasticity multiplier would make the EIP-1559 gas target zero (division by zero
+	// in CalcBaseFee as soon as any gas is used), no transaction fits such a block, so treat it as unlimited as well.
+	if consParams := ctx.ConsensusParams(); consParams.Block != nil && consParams.Block.MaxGas >= ethparams.ElasticityMultiplier {
 		gasLimit = big.NewInt(consParams.Block.MaxGas)
 	} else {
 		gasLimit = new(big.Int).SetUint64(math.MaxUint64)
